@@ -137,14 +137,14 @@ def layout : Fm → List Seg
 /-- total width of the immediate operand of a layout (sum of its pieces) -/
 def immWidth : List Seg → Nat
   | [] => 0
-  | .fld w .imm _ _ :: r => w + immWidth r
-  | _ :: r => immWidth r
+  | .fix _ :: r => immWidth r
+  | .fld w s _ _ :: r => if s = .imm then w + immWidth r else immWidth r
 
 /-- kind of the immediate operand, if any -/
 def immKind : List Seg → Option Kind
   | [] => none
-  | .fld _ .imm k _ :: _ => some k
-  | _ :: r => immKind r
+  | .fix _ :: r => immKind r
+  | .fld _ s k _ :: r => if s = .imm then some k else immKind r
 
 /-! ## operands (numbering of `abi.RegType` in package loong64: 0 absent, r_n ↦ n+1, f_n ↦ n+33,
 fcsr_n ↦ n+65, fcc_n ↦ n+69) -/
@@ -230,25 +230,27 @@ def segVals (W : Nat) (a : Ops) : List Seg → List Nat → Option (List Nat)
     | some t, some vs => some (t / 2 ^ vlo % 2 ^ w :: vs)
     | _, _ => none
 
-/-- reassemble operands from segment values -/
-def opsOfSegs (W : Nat) : List Seg → List Nat → Ops → Nat → Ops × Nat
-  | [], _, acc, it => (acc, it)
-  | _ :: _, [], acc, it => (acc, it)
-  | .fix _ :: r, _ :: vs, acc, it => opsOfSegs W r vs acc it
-  | .fld _ slot k vlo :: r, v :: vs, acc, it =>
-    match slot with
-    | .rd => opsOfSegs W r vs { acc with rd := regShow k v } it
-    | .rs1 => opsOfSegs W r vs { acc with rs1 := regShow k v } it
-    | .rs2 => opsOfSegs W r vs { acc with rs2 := regShow k v } it
-    | .rs3 => opsOfSegs W r vs { acc with rs3 := regShow k v } it
-    | .imm => opsOfSegs W r vs acc (it + v * 2 ^ vlo)
+/-- the operand shown in register slot `s`: the first field of the layout that carries it -/
+def slotVal (s : Slot) : List Seg → List Nat → Nat
+  | [], _ => 0
+  | _ :: _, [] => 0
+  | .fix _ :: r, _ :: vs => slotVal s r vs
+  | .fld _ s' k _ :: r, v :: vs => if s' = s then regShow k v else slotVal s r vs
 
+/-- the immediate's field value reassembled from its pieces -/
+def immTotal : List Seg → List Nat → Nat
+  | [], _ => 0
+  | _ :: _, [] => 0
+  | .fix _ :: r, _ :: vs => immTotal r vs
+  | .fld _ s _ vlo :: r, v :: vs => if s = .imm then v * 2 ^ vlo + immTotal r vs else immTotal r vs
+
+/-- reassemble operands from a word read under layout `L` -/
 def decodeOps (L : List Seg) (w : Nat) : Ops :=
-  let W := immWidth L
-  let (acc, it) := opsOfSegs W L (unpackSegs L w) { rd := 0, rs1 := 0, rs2 := 0, rs3 := 0, imm := 0 } 0
-  match immKind L with
-  | some k => { acc with imm := immShow k W it }
-  | none => acc
+  let vs := unpackSegs L w
+  { rd := slotVal .rd L vs, rs1 := slotVal .rs1 L vs, rs2 := slotVal .rs2 L vs, rs3 := slotVal .rs3 L vs,
+    imm := match immKind L with
+      | some k => immShow k (immWidth L) (immTotal L vs)
+      | none => 0 }
 
 /-! ## the ISA reference table (typed from the manual's appendix B; `value` = the 32-bit pattern with all
 operand bits zero) -/
